@@ -106,7 +106,8 @@ add("C13", "O", "fault_enumeration",
 
 add("C15", "G", "exploration",
     "The real coordinator run_model_no_trade runs inside the simulator while the per-country worker is replaced by a seeded stub "
-    "returning ratios from {0, (0,1), 1 +- 10^-k, >1, NaN}; NaN is the failed-worker fault. Selections: empty, inclusion, exclusion, "
+    "returning ratios from {0, (0,1), 1 +- 10^-k, >1, NaN}; NaN is the failed-worker fault; further faults: a transient worker exception "
+    "(first visit of a country raises) and a transient torn read of the country table (the call that meets it gets no verdict, later calls do). Selections: empty, inclusion, exclusion, "
     "mixed, unknown codes, duplicates, SWT; population overridden through the option dictionary. Reference model from the statement: "
     "run set semantics, net_pop, net_pop_fed = sum pop*min(1, ratio), bounds, every run country once in results, worker called once per "
     "country. A slice of histories uses the real worker (2-4 countries) to validate that the stub boundary carries the same values.",
